@@ -241,7 +241,13 @@ func (e *c15Env) close() {
 func (e *c15Env) trigger(ev *c15Event) error {
 	e.events.Store(ev.rid, ev)
 	group := ""
-	return e.svc.With(ev.rid, func(r res.Resource) {
+	// every other query event is sent from a resource that itself carries a query
+	// (a request or With on "rid?query"): that query is not the query request's
+	rid := ev.rid
+	if ev.idx%2 == 1 {
+		rid += "?origin=" + fmt.Sprint(ev.idx)
+	}
+	return e.svc.With(rid, func(r res.Resource) {
 		group = r.Group()
 		r.QueryEvent(func(qr res.QueryRequest) {
 			id := fmt.Sprintf("%s#%d", ev.rid, ev.idx)
